@@ -43,3 +43,13 @@ def set_rules(rules, **kw):
     for k, v in kw.items():
         _need(rules, k)
         setattr(rules, k, v)
+
+
+def set_info(process, identifier, **kw):
+    """plant fields of the per-instance information of a process (e.g. a symbolic uptime)"""
+    _need(process, 'info_map')
+    info = process.info_map[identifier]
+    for k, v in kw.items():
+        if k not in info:
+            raise HarnessError(f'adapter: process information has no field {k}')
+        info[k] = v
